@@ -5,6 +5,7 @@ import (
 	"go/constant"
 	"go/token"
 	"go/types"
+	"math"
 	"sort"
 	"strings"
 
@@ -583,6 +584,62 @@ func runC01(c *core.Ctx) {
 		if ncp == 0 {
 			c.Undecided("library#map-copy-loops", "-", "no map copy loop found")
 		}
+	}
+
+	c.Rule("C01.uintnarrow", "an unsigned value is not squeezed into a signed one: in library packages, every conversion to a signed integer type of a value obtained from AsUint() is dominated by an edge on which that value was found not to exceed MaxInt64 - otherwise a node holding 2^63 or more is copied, encoded or compared as a negative number while the call reports success", 2)
+	{
+		nconv := 0
+		for _, fn := range p.ModFns {
+			pk := core.FuncPkg(fn)
+			if pk == nil || !libraryPkg(core.RelPkg(pk.Path())) || len(fn.Blocks) == 0 || fn.Synthetic != "" {
+				continue
+			}
+			n := 0
+			core.Instrs(fn, func(in ssa.Instruction) {
+				cv, ok := in.(*ssa.Convert)
+				if !ok {
+					return
+				}
+				tb, ok1 := cv.Type().Underlying().(*types.Basic)
+				fb, ok2 := cv.X.Type().Underlying().(*types.Basic)
+				if !ok1 || !ok2 || tb.Info()&types.IsInteger == 0 || fb.Info()&types.IsInteger == 0 || tb.Info()&types.IsUnsigned != 0 || fb.Info()&types.IsUnsigned == 0 {
+					return
+				}
+				var src *ssa.Extract
+				for w := range core.BackSlice(cv.X, core.SliceOpts{Local: true}) {
+					if e, ok := w.(*ssa.Extract); ok && e.Index == 0 {
+						if cl, ok := e.Tuple.(*ssa.Call); ok {
+							if o := core.CalleeObj(cl); o != nil && o.Name() == "AsUint" {
+								src = e
+							}
+						}
+					}
+				}
+				if src == nil {
+					return
+				}
+				n++
+				nconv++
+				about := func(v ssa.Value) bool {
+					v = core.Strip(v)
+					return v == core.Strip(cv.X) || v == ssa.Value(src)
+				}
+				bounded := false
+				for e := range core.EdgesWhere(fn, func(r core.Rel) bool {
+					if !about(r.X) {
+						return false
+					}
+					ub, ok := r.UpperBoundConst()
+					return ok && constant.Compare(ub, token.LEQ, constant.MakeInt64(math.MaxInt64))
+				}) {
+					if core.EdgeDominates(e, cv.Block()) {
+						bounded = true
+					}
+				}
+				c.Check(bounded, fmt.Sprintf("%s#unsigned-to-signed/%d", core.FuncKey(fn), n), p.Pos(cv.Pos()), "converted only where it was found to fit", "a value read with AsUint() is converted to a signed integer without having been found <= MaxInt64 on this path: 2^63 and above become negative numbers, and the operation that uses the result succeeds with a different value than the node holds")
+			})
+		}
+		_ = nconv
 	}
 
 	c.Rule("C01.intcompare", "deep equality compares integers in the domain they were read in: in datamodel.DeepEqual (helpers expanded) no operand of an integer ==/!= derives from a conversion between a signed and an unsigned integer type applied to what AsInt / AsUint returned (after such a conversion -1 and 2^64-1, or MinInt64 and 2^63, compare equal although the abstract values differ)", 1)
